@@ -319,3 +319,81 @@ Definition kind_code (k : kind) : Z := match k with KText => 0 | KTag => 1 | KOp
 Definition markup_freeb (s : str) : bool :=
   forallb (fun c => negb ((c =? c_lt) || (c =? c_gt) || (c =? c_quot) || (c =? c_apos))) s.
 Definition valid_mode (m : mode) : Prop := match m with MQuote q => is_quote q = true | _ => True end.
+
+(* ---------------------------------------------------------------- Request.host / url_scheme / host_url *)
+(* mapproxy/request/base.py, read line by line.  A result None stands for `the Python code raises` (IndexError
+   of split(..)[1]); the theorem host_never_raises shows that it cannot happen. *)
+Record henv := {
+  x_fwd_host : option str;     (* environ['HTTP_X_FORWARDED_HOST'] if present *)
+  http_host : option str;      (* environ['HTTP_HOST'] if present *)
+  x_fwd_proto : option str;    (* environ.get('HTTP_X_FORWARDED_PROTO') *)
+  wsgi_scheme : str;           (* environ['wsgi.url_scheme'] *)
+  server_name : str;           (* environ['SERVER_NAME'] *)
+  server_port : str            (* environ['SERVER_PORT'] *)
+}.
+
+(* s.split(c) for a one-character separator: all pieces, never the empty list *)
+Fixpoint split_on (c : Z) (s : str) : list str :=
+  match s with
+  | [] => [[]]
+  | x :: r =>
+      if x =? c then [] :: split_on c r
+      else match split_on c r with
+           | p :: ps => (x :: p) :: ps
+           | [] => [[x]]
+           end
+  end.
+
+(* str.isspace() *)
+Definition py_space (c : Z) : bool :=
+  ((9 <=? c) && (c <=? 13)) || ((28 <=? c) && (c <=? 32)) || (c =? 133) || (c =? 160) || (c =? 5760)
+  || ((8192 <=? c) && (c <=? 8202)) || (c =? 8232) || (c =? 8233) || (c =? 8239) || (c =? 8287) || (c =? 12288).
+Fixpoint lstrip (s : str) : str :=
+  match s with [] => [] | c :: r => if py_space c then lstrip r else s end.
+Definition strip (s : str) : str := rev (lstrip (rev (lstrip s))).
+
+(* scheme = environ.get('HTTP_X_FORWARDED_PROTO'); if not scheme: scheme = environ['wsgi.url_scheme'] *)
+Definition url_scheme (e : henv) : str :=
+  match x_fwd_proto e with
+  | Some (c :: r) => c :: r
+  | _ => wsgi_scheme e
+  end.
+
+Definition s_https : str := [104; 116; 116; 112; 115].
+Definition s_http : str := [104; 116; 116; 112].
+(* (scheme, port) in (('https', '443'), ('http', '80')) *)
+Definition default_port (scheme port : str) : bool :=
+  (str_eqb scheme s_https && str_eqb port [52; 52; 51]) || (str_eqb scheme s_http && str_eqb port [56; 48]).
+
+Definition host (e : henv) : option str :=
+  match x_fwd_host e with
+  | Some h =>
+      (* host.split(',', 1)[0].strip() *)
+      match nth_error (split_on 44 h) 0 with
+      | Some first => Some (strip first)
+      | None => None
+      end
+  | None =>
+      match http_host e with
+      | Some h =>
+          if existsb (Z.eqb 58) h then                       (* if ':' in host *)
+            match nth_error (split_on 58 h) 1 with           (* port = host.split(':')[1] *)
+            | None => None
+            | Some port =>
+                if default_port (url_scheme e) port
+                then nth_error (split_on 58 h) 0             (* host = host.split(':')[0] *)
+                else Some h
+            end
+          else Some h
+      | None =>
+          Some (if default_port (url_scheme e) (server_port e) then server_name e
+                else server_name e ++ [58] ++ server_port e)
+      end
+  end.
+
+(* '%s://%s/' % (self.url_scheme, self.host) *)
+Definition host_url (e : henv) : option str :=
+  match host e with
+  | Some h => Some (url_scheme e ++ [58; 47; 47] ++ h ++ [47])
+  | None => None
+  end.
